@@ -6,12 +6,14 @@ use std::borrow::Cow;
 
 pub(crate) fn escape_html_body(s: &str) -> Cow<'_, str> {
     lazy_static! {
-        static ref REGEX: Regex = Regex::new("[<\"&]").unwrap();
+        static ref REGEX: Regex = Regex::new("[<\"&]|\\{\\{").unwrap();
     }
     REGEX.replace_all(s, |caps: &Captures| match &caps[0] {
         "<" => "&lt;".to_owned(),
         "\"" => "&quot;".to_owned(),
         "&" => "&amp;".to_owned(),
+        // (static `{{` would be read back as the start of a binding)
+        "{{" => "&#123;&#123;".to_owned(),
         _ => unreachable!(),
     })
 }
